@@ -8,6 +8,7 @@ import core
 from core import Stream, hexs, unhex
 import lexcommon as lc
 import lexgen
+import softkw_seq
 
 ID = "C05"
 DESIGN_REF = "DESIGN.md section 5, C05 (+ Appendix B); design/C05.md, design/LEXER_MODEL.md"
@@ -611,6 +612,30 @@ def streams(ctx):
     out += _pair(f"exhaustive-len={L2}-core-alphabet", reqs, kind="exhaustive", exhaustive=True,
                  note=f"all texts of length exactly {L2} over the core symbols "
                       "(blank, tab, LF, CR, #, backslash, quote, brackets, a, 1" + (", ., =)" if ctx.quick else ")"))
+
+    # 2b. the state of the soft-keyword pass (start_of_line / start_of_statement / nesting): every short sequence
+    #     of statement-start pieces (`type X = 1`, `type`, `;`, `:`, `if a`, `lambda`, brackets, NEWLINE, `x`), so that
+    #     the model's flags are tied to the code at every place a `type` alias may or may not start
+    L3 = 4 if ctx.quick else 5
+    reqs = []
+    for t in softkw_seq.CORPUS:
+        reqs += _both(t)
+        reqs += [lc.lexreq(t, mode="e", full=False), lc.lexreq(t, mode="i", full=True), lc.lexreq(t, mode="e", full=True)]
+    for t in softkw_seq.texts(L3):
+        reqs += _both(t)
+    out += _pair(f"softkw-statement-start-len<={L3}", reqs, kind="exhaustive", exhaustive=True,
+                 note=f"every sequence of at most {L3} pieces over {len(softkw_seq.PIECES)} pieces "
+                      "(type X = 1, type, ;, :, if a, lambda, ( ) [ ] { }, NEWLINE, x) + the regression corpus of the "
+                      "former finding type-alias-not-at-line-start")
+    L4 = 3 if ctx.quick else 4
+    reqs = []
+    for t in softkw_seq.texts_ext(L4):
+        reqs += _both(t)
+        if "\n" in t:
+            reqs.append(lc.lexreq(t, mode="e", full=True))
+    out += _pair(f"softkw-statement-start-ext-len<={L4}", reqs, kind="exhaustive", exhaustive=True,
+                 note=f"every sequence of at most {L4} pieces over {len(softkw_seq.PIECES_EXT)} pieces (the former plus "
+                      "comment, indented / dedented lines, continuation line, match x, case, type Y[T] =, =)")
 
     # 3. generated programs in every layout
     n = 3000 if ctx.quick else 60000
